@@ -11,7 +11,7 @@ import (
 
 const (
 	fnSweep    = "syncer/sweeper.(*Sweeper).sweep"
-	fnSweepTxn = "syncer/sweeper.(*Sweeper).sweep$2"
+	fnSweepTxn = "syncer/sweeper.(*Sweeper).sweep$update"
 )
 
 // blockInLoop reports whether block b lies inside any loop of its function.
